@@ -818,7 +818,20 @@ class C08Executor(readfile.ReadFileExecutor):
     def _grown_list(self, st, v):
         return hasattr(v, "ref") and st.obj(v.ref).kind == "unk" and st.ghost.get(("growing", v.ref))
 
+    def b_int(self, st, args, kwargs, node):
+        if len(args) == 1 and isinstance(args[0], VExt) and args[0].sort == "PdfObj":
+            self.exc_any(st.fork(), f"{self.loc(node)} int(PdfObject)")
+            return [(st, VInt(PINT(args[0].t)))]
+        return super().b_int(st, args, kwargs, node)
+
+    def to_str(self, st, v, formatted=False):
+        if isinstance(v, VExt) and v.sort == "PdfObj" and not formatted:
+            return VStr(PNAME(v.t))
+        return super().to_str(st, v, formatted)
+
     def get_index(self, st, base, idx, node):
+        if isinstance(base, VExt) and base.sort == "PdfObj":
+            return m_pdfobj_index(self, st, base, idx, node)
         if isinstance(base, VPieces) and isinstance(idx, VInt) and idx.const() == -1:
             return [(st, base.last)]          # a split result is never empty: [-1] exists and is the text after the last separator
         return super().get_index(st, base, idx, node)
@@ -874,6 +887,12 @@ class C08Executor(readfile.ReadFileExecutor):
             if sa is not None and sb is not None:
                 t = self._bytes_eq(sa, sb)
                 return [(st, VBool(t if op == "Eq" else z3.Not(t)))]
+        if op not in ("Is", "IsNot", "In", "NotIn"):           # pypdf numbers / names compare like the int / str they extend
+            pa, pb = (isinstance(v, VExt) and v.sort == "PdfObj" for v in (a, b))
+            if pa and isinstance(b, VInt) or pb and isinstance(a, VInt):
+                return super().compare(st, op, VInt(PINT(a.t)) if pa else a, VInt(PINT(b.t)) if pb else b, node)
+            if op in ("Eq", "NotEq") and (pa and isinstance(b, VStr) or pb and isinstance(a, VStr)):
+                return super().compare(st, op, VStr(PNAME(a.t)) if pa else a, VStr(PNAME(b.t)) if pb else b, node)
         if op in ("Eq", "NotEq"):
             for x, y in ((a, b), (b, a)):
                 if isinstance(x, VExt) and x.sort == "CoderId" and isinstance(y, VBytes):
@@ -884,6 +903,8 @@ class C08Executor(readfile.ReadFileExecutor):
         return super().compare(st, op, a, b, node)
 
     def contains(self, st, container, item, node):
+        if isinstance(container, VExt) and container.sort == "PdfObj" and isinstance(item, VStr):       # "/CF" in encrypt
+            return [(st, VBool(PHAS(container.t, item.t)))]
         if isinstance(container, VExt) and container.sort == "Blob":            # needle in <raw bytes of a ZIP member>
             return [(st, VBool(raw_has(self, st, container.t, _needle(self, item))))]
         return super().contains(st, container, item, node)
@@ -2017,6 +2038,73 @@ def m_pdf_decrypt(ex, st, obj, args, kwargs, node):
     return [(st, VInt(DEC(obj.t)))]
 
 
+# ASSUMED view of the document's /Encrypt dictionary as pypdf presents it (validated natively on the stored PDFs): dictionaries
+# with name keys (`d[k]` / `d.get(k, default)` / `k in d`; pypdf resolves indirect references on access, get_object() of a
+# resolved object is the object), numbers (int(x), comparisons) and names (str(x), == "text").
+PdfObj = ext_sort("PdfObj")
+TRAILER = z3.Function("pdf_trailer", PdfR, PdfObj)
+PHAS = z3.Function("pdf_dict_has", PdfObj, S, B)
+PGET = z3.Function("pdf_dict_get", PdfObj, S, PdfObj)
+PRES = z3.Function("pdf_get_object", PdfObj, PdfObj)
+PINT = z3.Function("pdf_number_value", PdfObj, I)
+PNAME = z3.Function("pdf_name_text", PdfObj, S)
+AES_CFMS = ("/AESV2", "/AESV3")                       # PDF 32000-1 Table 25 / PDF 2.0: crypt filter methods that decrypt with AES
+
+
+def pdf_uses_aes(r):
+    """The standard security handler of the document decrypts with AES (PDF 32000-1 7.6.5, as pypdf's Encryption.read
+    resolves it): /V >= 4 and the crypt filter NAMED by /StmF, /StrF or /EFF (default /Identity; /EFF defaults to /StmF) --
+    whatever it is called -- has /CFM /AESV2 or /AESV3 in the /CF dictionary."""
+    e = PGET(TRAILER(r), sv("/Encrypt"))
+    v = z3.If(PHAS(e, sv("/V")), PINT(PGET(e, sv("/V"))), z3.IntVal(0))
+    cf = PGET(e, sv("/CF"))
+
+    def named(key, default):
+        return z3.If(PHAS(e, sv(key)), PNAME(PGET(e, sv(key))), default)
+
+    def aes(n):
+        f = PGET(cf, n)
+        return z3.And(n != sv("/Identity"), PHAS(e, sv("/CF")), PHAS(cf, n), PHAS(f, sv("/CFM")),
+                      z3.Or([PNAME(PGET(f, sv("/CFM"))) == sv(m) for m in AES_CFMS]))
+    stm = named("/StmF", sv("/Identity"))
+    return z3.And(v >= 4, z3.Or(aes(stm), aes(named("/StrF", sv("/Identity"))), aes(named("/EFF", stm))))
+
+
+def _pobj(st, t):
+    st.assume(PRES(t) == t)
+    return VExt("PdfObj", t)
+
+
+def _pkey(v):
+    return v.t if isinstance(v, VStr) else None
+
+
+def m_pdfobj_index(ex, st, obj, idx, node):
+    k = _pkey(idx)
+    if k is None:
+        ex.exc_any(st.fork(), f"{ex.loc(node)} PdfObject[...]")
+        return [(st, VExt("PdfObj"))]
+    ex.exc_any(st.fork(), f"{ex.loc(node)} PdfObject[key] (resolving an indirect reference)")
+    st2 = ex.fork_raise(st, z3.Not(PHAS(obj.t, k)), "KeyError")
+    return [] if st2 is None else [(st2, _pobj(st2, PGET(obj.t, k)))]
+
+
+def m_pdfobj_get(ex, st, obj, args, kwargs, node):
+    k = _pkey(args[0]) if args else None
+    if k is None or len(args) > 2 or kwargs:
+        return ex.havoc_call(st, "PdfObject.get", args, node)
+    ex.exc_any(st.fork(), f"{ex.loc(node)} PdfObject.get (resolving an indirect reference)")
+    out = []
+    a, b_ = st.fork(), st
+    if ex.feasible(a.pc, PHAS(obj.t, k)):
+        a.assume(PHAS(obj.t, k))
+        out.append((a, _pobj(a, PGET(obj.t, k))))
+    if ex.feasible(b_.pc, z3.Not(PHAS(obj.t, k))):
+        b_.assume(z3.Not(PHAS(obj.t, k)))
+        out.append((b_, args[1] if len(args) == 2 else NONE))
+    return out
+
+
 def m_pdf_pages(ex, st, obj):
     h = getattr(ex.contract, "on_pages", None)
     if h is not None:
@@ -2175,6 +2263,9 @@ def pdf_contracts(reg):
     reg.attr_models[("PdfReader", "is_encrypted")] = lambda ex, st, o: VBool(PENC(o.t))
     reg.attr_models[("PdfReader", "pages")] = m_pdf_pages
     reg.method_models[("PdfReader", "decrypt")] = m_pdf_decrypt
+    reg.attr_models[("PdfReader", "trailer")] = lambda ex, st, o: _pobj(st, TRAILER(o.t))
+    reg.method_models[("PdfObj", "get")] = m_pdfobj_get
+    reg.method_models[("PdfObj", "get_object")] = lambda ex, st, o, a, k, n: [(st, VExt("PdfObj", PRES(o.t)))]
     out = []
     out.append(aes_patch_contract(reg))
     out += pkcs7_contracts(reg)
@@ -2230,8 +2321,10 @@ def pdf_contracts(reg):
                   z3.And(z3.BoolVal(ok), checked(ex, st, obj.t)) if ok else z3.BoolVal(False))
     def pdf_on_decrypt(ex, st, obj, node):
         # AES-128 files pass the constructor without AES: the built-in AES must have been installed on every path to decrypt()
-        ex.add_vc("typestate", "aes-provider-ensured-before-decrypt", st.pc, z3.BoolVal(bool(st.ghost.get("aes_ensured"))), loc=ex.loc(node),
-                  note=f"{ex.loc(node)} reader.decrypt reachable without patch_pypdf_fallback_aes() having been called")
+        # ... unless the /Encrypt dictionary says that the document does not decrypt with AES (pdf_uses_aes: by the NAMED filters)
+        ex.add_vc("typestate", "aes-provider-ensured-before-decrypt", st.pc,
+                  z3.Or(z3.BoolVal(bool(st.ghost.get("aes_ensured"))), z3.Not(pdf_uses_aes(obj.t))), loc=ex.loc(node),
+                  note=f"{ex.loc(node)} reader.decrypt reachable without patch_pypdf_fallback_aes() having been called although the document may name an AES crypt filter")
     cp.on_yield, cp.on_pages, cp.on_decrypt = pdf_on_yield, pdf_on_pages, pdf_on_decrypt
     EXECUTOR_KW[t] = {"abstract": True, "inline_calls": False, "inline_local": True, "merge_after_check": True}
     out.append(cp)
@@ -2609,7 +2702,9 @@ ASSUMED_MODELS = [
     "(verified link by link: _apply_decoder, _decompress_folder, _parse_encoded_header, _parse_end_header, _parse_header, SevenZipReader.__init__, SevenZipFile.__enter__)",
     "SevenZipFile.needs_password() on the opened archive = verified contract of SevenZipFile/SevenZipReader.needs_password",
     "_EpubContext(f).exists / read_xml_root / close (total); Element.findall('.//{xmlenc}EncryptedData') = all such descendants",
-    "pypdf.PdfReader(f), .is_encrypted, .decrypt(''), .pages",
+    "pypdf.PdfReader(f), .is_encrypted, .decrypt(''), .pages; reader.trailer and the /Encrypt dictionary as name-keyed dictionaries of numbers / names "
+    "(d[k], d.get(k, default), k in d, get_object(), int(), str(), comparisons); `the document decrypts with AES` = /V >= 4 and the crypt filter NAMED "
+    "by /StmF, /StrF or /EFF has /CFM /AESV2 or /AESV3 (pdf_uses_aes)",
     "_DocReader(f) used as a context manager: read() behaves as the verified contract of _DocReader.read on a fresh reader",
     "close() of container / context handles is total",
     "attribute reads / comparisons on plain data objects raise at most AttributeError / TypeError",
